@@ -252,6 +252,14 @@ fn rand_hols(r: &mut Rng, lo: i64, hi: i64, centre: i64) -> Vec<NaiveDateTime> {
     for _ in 0..r.below(25) {
         v.push(r.range(lo, hi));
     }
+    // now and then a long closure (8 to 16 consecutive days, every one a listed holiday: longer than any week-based
+    // scan would cover, far shorter than the window) right where the queries concentrate
+    if r.chance(0.3) {
+        let c = centre + r.range(-12, 6);
+        for k in 0..r.range(8, 16) {
+            v.push(c + k);
+        }
+    }
     v.into_iter().filter(|d| *d >= lo && *d <= hi).map(dn).collect()
 }
 
